@@ -1213,13 +1213,18 @@ class RemoteStubs(Stubs):
             raise InterpRaise('UnpackException', 'garbage on the wire')
         return a[0].obj
 
-    def conn(self, incoming, send_fails_on=()):
-        """A connection whose peer sends `incoming` (Packed payloads, 'EOF' or 'GARBAGE') and then nothing."""
-        st = {'in': list(incoming), 'sent': [], 'closed': 0, 'nsend': 0, 'polls_empty': 0}
+    def conn(self, incoming, send_fails_on=(), late=()):
+        """A connection whose peer sends `incoming` (Packed payloads, 'EOF' or 'GARBAGE') and then nothing.  The payloads whose
+        index is in `late` take the peer a while: poll() with any timeout reports nothing for them (a blocking recv_bytes waits
+        and gets them)."""
+        st = {'in': list(incoming), 'sent': [], 'closed': 0, 'nsend': 0, 'polls_empty': 0, 'taken': 0, 'waited': set()}
 
         def poll(it, a, k):
             if st['closed']:
                 raise InterpRaise('OSError', 'handle is closed')
+            if st['in'] and st['taken'] in late and st['taken'] not in st['waited']:
+                st['waited'].add(st['taken'])        # not there yet at the first look; it has arrived by the next one
+                return False
             if st['in']:
                 return True
             st['polls_empty'] += 1
@@ -1233,6 +1238,7 @@ class RemoteStubs(Stubs):
             if not st['in']:
                 raise _Idle()
             x = st['in'].pop(0)
+            st['taken'] += 1
             if x == 'EOF':
                 raise InterpRaise('EOFError', '')
             return x
@@ -1437,8 +1443,8 @@ def _client_model(repo):
     srv_cls = it.lookup_global(SERVER, 'Server')
     env_node = repo.klass(REMOTE, 'Environment')
 
-    def client(replies):
-        conn, cs = st.conn(replies)
+    def client(replies, late=()):
+        conn, cs = st.conn(replies, late=late)
         env = it.call(env_cls, [], {})
         env.attrs['conn'] = conn
         return env, cs
@@ -1469,6 +1475,20 @@ def _client_model(repo):
     r2, e2 = invoke(env, '_call', ['b'])
     rec('call', 'replies pair with requests in order', (r1, r2) == ('first', 'second') and len(cs['sent']) == 2,
         'two sequential calls must each send one request and consume one reply in order; got %s %s' % (r1, r2))
+
+    # a reply that takes the server long: whatever the client does about it, no later call may be handed that reply
+    env, cs = client([Packed(('slow answer', True)), Packed(('second', True)), Packed(('third', True))], late=(0,))
+    r1, e1 = invoke(env, '_call', ['slow'])
+    r2, e2 = invoke(env, '_call', ['b'])
+    r3, e3 = invoke(env, '_call', ['c'])
+    ok = (r1 == 'slow answer' or e1 is not None) and (r2 == 'second' or e2 is not None) and (r3 == 'third' or e3 is not None) \
+        and (e1 is None or (e2 is not None and e3 is not None) or (r2, r3) == ('second', 'third'))
+    rec('call', 'a late reply is never handed to a later call', ok,
+        'the server answers the first request late (poll reports nothing yet, a blocking read gets it), then answers two more: '
+        'call 1 -> %s, call 2 -> %s, call 3 -> %s; every call must get the reply to its own request (or fail): a call that gives up '
+        'waiting leaves its reply in the pipe and shifts every later reply by one' % (r1 if e1 is None else e1, r2 if e2 is None else e2,
+                                                                                 r3 if e3 is None else e3),
+        'late replies stay paired with their requests')
 
     # stubs: every public method that goes through _call
     api_sig = {}
@@ -1817,8 +1837,32 @@ def cache_history_model(repo, depth=3):
         it.module_env(PROJECT)['SUFFIXES'] = ['.py']
         it.sys_path = []
         it.sys_modules = {}
-        # the analysis of a module is stood for by the text it was computed from
-        it.module_env('supp/module.py')['extract_scope'] = Native('extract_scope', lambda i2, a, k: ('analysis of', a[0].attrs.get('orig_source')))
+        # the analysis of a module is stood for by the text it was computed from and, for module a (which star-imports b), by the
+        # text of b it saw at that moment.  supp's own extract_scope is interpreted; what it builds on (the scope object, the tree
+        # walk, the star-import expansion) is stubbed
+        menv = it.module_env('supp/module.py')
+        nenv = it.module_env('supp/nast.py')
+        real_source = it.lookup_global('supp/module.py', 'Source')
+
+        def mk_source(i2, a, k):
+            o = i2.call(real_source, list(a), dict(k))
+            o.attrs['tree'] = Unknown('tree')
+            return o
+
+        def mk_scope(i2, a, k):
+            src = a[0]
+            sc = Obj(facts.classes['SourceScope'], {'source': src, 'flow': Unknown('flow'), 'text': src.attrs.get('orig_source'),
+                                                   'deps': None}, 'analysis')
+
+            def star_imports(i3, a3, k3):
+                if str(src.attrs.get('filename')).endswith('a.py'):
+                    mb = i3.call(i3.getattr(a3[0], 'get_module'), ['b'], {})
+                    sc.attrs['deps'] = i3.getattr(mb, 'scope').attrs.get('text')
+            sc.attrs['resolve_star_imports'] = Native('resolve_star_imports', star_imports)
+            return sc
+        menv['Source'] = Native('Source', mk_source)
+        nenv['SourceScope'] = Native('SourceScope', mk_scope)
+        nenv['extract'] = Native('extract', lambda i2, a, k: None)
         # "now" is half a second after the latest save: every file counts as just written
         clock = Native('time', lambda i2, a, k: max(it.mtimes.values()) + 0.5 if it.mtimes else 0.0)
         for rel in ('supp/module.py', PROJECT):
@@ -1828,8 +1872,9 @@ def cache_history_model(repo, depth=3):
         if proj_cls is None:
             raise AnalysisError('Project vanished')
         out = []
-        ops = ['edit a', 'edit b', 'restore a', 'request a', 'request b', 'failing request a', 'create c', 'request c']
+        ops = ['edit a', 'edit b', 'touch a', 'restore a', 'request a', 'request b', 'failing request a', 'create c', 'request c']
         bad = []
+        bad_deps = []
         unstable = []
         n = 0
 
@@ -1844,6 +1889,7 @@ def cache_history_model(repo, depth=3):
                 if m2 is not m:
                     unstable.append(name)
                 r = it.getattr(m, 'scope')
+                r = ('analysis of', r.attrs.get('text'), r.attrs.get('deps')) if isinstance(r, Obj) else r
                 if fail:
                     raise InterpRaise('SyntaxError', 'the request fails after its module was validated')
             except InterpRaise as e:
@@ -1864,6 +1910,8 @@ def cache_history_model(repo, depth=3):
                 rev = {'<S>/a.py': 0, '<S>/b.py': 0}
                 clock = [1000.25]
                 oldest = {}
+                seq = [0]
+                changed_at = {'<S>/a.py': 0, '<S>/b.py': 0}
                 try:
                     p = it.instantiate(proj_cls, [['<S>']], {})
                     request(p, 'a')
@@ -1871,11 +1919,17 @@ def cache_history_model(repo, depth=3):
                     for op in hist:
                         kind, _, mod = op.rpartition(' ')
                         path = '<S>/%s.py' % mod
+                        if kind in ('edit', 'touch', 'restore'):
+                            seq[0] += 1
+                            changed_at[path] = seq[0]
                         if kind == 'edit':
                             clock[0] += 0.25          # saved again within the same second
                             rev[path] += 1
                             it.mtimes[path] = clock[0]
                             it.files[path] = '%s: revision %d' % (mod, rev[path])
+                        elif kind == 'touch':
+                            clock[0] += 0.25          # saved without a change: new modification time, same text
+                            it.mtimes[path] = clock[0]
                         elif kind == 'restore':
                             rev[path] += 1
                             oldest[path] = oldest.get(path, 1000.25) - 0.125     # older than any time this file ever had:
@@ -1893,8 +1947,14 @@ def cache_history_model(repo, depth=3):
                         elif kind == 'request':
                             got = request(p, mod)
                             want = ('analysis of', it.files[path]) if path in it.fs else 'ImportError'
-                            if got != want:
-                                bad.append((hist, op, got, want))
+                            if (got[:2] if isinstance(got, tuple) else got) != want:
+                                bad.append((hist, op, got[:2] if isinstance(got, tuple) else got, want))
+                                break
+                            # a module saved after the module it imports from was last changed is analysed anew, against the current
+                            # state of that module (older analyses of a that outlive a change of b are the known defect C09-R1)
+                            if mod == 'a' and changed_at['<S>/a.py'] >= changed_at['<S>/b.py'] and changed_at['<S>/b.py'] > 0 \
+                                    and got[2] != it.files['<S>/b.py']:
+                                bad_deps.append((hist, op, got[2], it.files['<S>/b.py']))
                                 break
                 except Uninterpretable as e:
                     raise AnalysisError('the module cache is outside the interpretable subset: %s' % e)
@@ -1906,6 +1966,13 @@ def cache_history_model(repo, depth=3):
                     'after the history %s the request `%s` was served %s while a new project would compute %s: a long-lived project '
                     'answers from a stale analysis' % ((' ; '.join(bad[0][0]), bad[0][1], bad[0][2], bad[0][3]) if bad else ('', '', '', '')),
                     '%d histories: the served analysis is always that of the current file content' % n))
+        bad_deps.sort(key=lambda b: len(b[0]))
+        out.append(('history', 'a module saved again is analysed against the current state of what it imports', not bad_deps,
+                    'module a star-imports b; after the history %s the request `%s` was served an analysis of a made when b read %r '
+                    'while b now reads %r, although a was saved after b: the analysis of a file is not a function of its text alone, '
+                    'a new modification time must lead to a new analysis' % ((' ; '.join(bad_deps[0][0]), bad_deps[0][1], bad_deps[0][2],
+                                                                             bad_deps[0][3]) if bad_deps else ('', '', '', '')),
+                    'a re-saved importer sees the current exporter'))
         out.append(('history-count', 'histories explored', n >= 100, 'only %d histories' % n, None))
         out.append(('identity', 'a module keeps its identity within one request', not unstable,
                     'two consecutive get_module(%r) calls inside one change-checking context returned different module objects: the '
